@@ -38,7 +38,7 @@ RULE = ('attr: 1..5 vendor subsections x 1..4 File/Section/Symbol sub-subsection
         'ULEB operands of 1..4 bytes x successor classes, both byte orders. Non-trivial: attr case with >=2 subsections or '
         '>=2 sub-subsections in one subsection; exidx case with a displacement whose bits 26 and 30 differ or byte-code with '
         'a multi-byte operand. Distinct by SHA-1 of (encoded file, consumption pattern).')
-N = {'quick': 5000, 'thorough': 150000}
+N = {'quick': 10000, 'thorough': 300000}
 ASSUMPTIONS = [
     'only tags present in the library tag tables are generated (unknown tags are rejected by design); the value kind of a tag '
     'is taken from a hand-written table (ARM IHI 0045: 4,5,67 NTBS; 32 uleb+NTBS; 65 nested; RISC-V psABI: 5 NTBS; rest uleb)',
@@ -509,7 +509,7 @@ def run_attr(ctx, case):
 
 # ---- generator ---------------------------------------------------------------------------------
 
-VENDORS = ['aeabi', 'riscv', 'gnu', 'ARM', 'vendor', '', 'a', 'aeabi', 'Anthropicé', 'x' * 40]
+VENDORS = ['aeabi', 'riscv', 'gnu', 'ARM', 'vendor', '', 'a', 'aeabi', 'Vendoré', 'x' * 40]
 STRINGS = ['', 'ARM v7', '7-A', 'rv64i2p0_m2p0_a2p0', 'rv32imac', '2.09', 'cortex-a8', 'é中\U0001f600', 'A', 'z' * 70]
 
 
@@ -583,17 +583,19 @@ def gen_attr_case(ch, tier, pattern=None, arch=None, nsub=None, nss=None):
         for j in range(n2):
             scope = ch.choice([1, 1, 2, 3])
             ss = {'scope': scope, 'attrs': []}
-            if ch.int(0, 9) == 0:
-                ss['sp'] = ch.int(1, 2)
-            if scope != 1:
-                ss['nums'] = [[ch.choice([1, 2, 5, 127, 128, 300, 65535, 1 << 20]), ch.choice([0, 0, 0, 1, 2])]
-                              for _ in range(ch.choice([1, 0, 2, 3, 6]))]
-                if ch.int(0, 5) == 0:
-                    ss['zp'] = ch.int(1, 2)
             na = ch.choice([1, 0, 2, 3, 5, 8, 20])
-            ss['attrs'] = [gen_attr(ch, arch, tags) for _ in range(na)]
+            # structure is drawn from `ch` (shrinkable); contents from a PRNG seeded by one drawn integer (cheap)
+            r = RndChooser(ch.int(0, 0xfffff))
+            if r.int(0, 9) == 0:
+                ss['sp'] = r.int(1, 2)
+            if scope != 1:
+                ss['nums'] = [[r.choice([1, 2, 5, 127, 128, 300, 65535, 1 << 20]), r.choice([0, 0, 0, 1, 2])]
+                              for _ in range(r.choice([1, 0, 2, 3, 6]))]
+                if r.int(0, 5) == 0:
+                    ss['zp'] = r.int(1, 2)
+            ss['attrs'] = [gen_attr(r, arch, tags) for _ in range(na)]
             sss.append(ss)
-        subs.append({'vendor': ch.choice(VENDORS) if ch.int(0, 3) else gen_string(ch), 'subsubs': sss})
+        subs.append({'vendor': ch.choice(VENDORS) if ch.int(0, 3) else gen_string(RndChooser(ch.int(0, 0xfffff))), 'subsubs': sss})
     case['subs'] = subs
     case['pattern'] = pattern or ch.choice(PATTERNS)
     p = case['pattern']
@@ -1139,9 +1141,11 @@ def gen_code(ch, cap):
     return code
 
 
+ENTRY_MIX = ['inline', 'cant', 't1', 't0', 't2', 'generic', 'inline', 't1', 'bad_idx', 'bad_inline', 'bad_table', 'reserved']
+
+
 def gen_entry(ch, kind=None):
-    k = kind or ch.choice(['inline', 'cant', 't1', 't0', 't2', 'generic', 'inline', 't1', 'bad_idx', 'bad_inline',
-                           'bad_table', 'reserved'])
+    k = kind or ch.choice(ENTRY_MIX)
     e = {'kind': k, 'disp': gen_disp(ch)}
     if k in ('inline', 't0'):
         e['code'] = gen_code(ch, 3)
@@ -1170,7 +1174,8 @@ def gen_entry(ch, kind=None):
 
 def gen_exidx_case(ch, tier):
     n = ch.choice([1, 2, 3, 0, 5, 8, 13, 30, 60, ch.int(0, 60)])
-    ents = [gen_entry(ch) for _ in range(n)]
+    # kind drawn from `ch` (shrinkable); contents of an entry from a PRNG seeded by one drawn integer (cheap)
+    ents = [gen_entry(RndChooser(ch.int(0, 0xfffff)), ch.choice(ENTRY_MIX)) for _ in range(n)]
     case = {'k': 'exidx', 'le': ch.bool(), 'et': ch.choice([3, 2]), 'pad': ch.choice([64, 0, 4, 256, 1000, 4096]),
             'order': ch.int(0, 2), 'tab_first': ch.bool(), 'tab_rev': ch.bool(), 'tab_lead': ch.choice([0, 0, 1, 3]),
             'acc': ch.choice(['seq', 'rev', 'twice', 'evenodd', 'zigzag']), 'entries': ents}
